@@ -54,7 +54,8 @@ def hydrostatic(z, T, S):
 
 
 def make_cast(rng, nmin=3, nmax=500, n_extra=None, with_pressure=None, noise=None, inversions=None,
-              invert_last=None, z_top=None, unit_variety=True, max_extra=6, nop_extras=False, shuffle_order=0.4):
+              invert_last=None, z_top=None, unit_variety=True, max_extra=6, nop_extras=False, shuffle_order=0.4,
+              convert=False):
     """one synthetic cast in standard units, depths strictly increasing"""
     npr = np.random.default_rng(rng.getrandbits(63))
     u = rng.random()
@@ -136,6 +137,12 @@ def make_cast(rng, nmin=3, nmax=500, n_extra=None, with_pressure=None, noise=Non
         units['P'] = rng.choice(list(UNITS_P))
         for name, su, _v in extra:
             units[name] = rng.choice(list(UNITS_V if su == 'm/s' else UNITS_C))
+    if convert:
+        # every convertible variable is supplied in a unit that is NOT the standard one
+        units['T'] = rng.choice(['deg C', 'Celsius'])
+        units['P'] = rng.choice(['db', 'MPa'])
+        for name, su, _v in extra:
+            units[name] = rng.choice(['mg/l', 'mg/m^3']) if su == 'kg/m^3' else units[name]
     # order of the data variables in dataset forms (xarray / netCDF); the array form is positional (canonical)
     order = ['temperature', 'salinity'] + (['pressure'] if with_pressure else []) + [e[0] for e in extra]
     if rng.random() < shuffle_order:
@@ -185,15 +192,40 @@ def chem_lists(cast):
     return [e[0] for e in cast['extra']], [u[e[0]] for e in cast['extra']]
 
 
-def make_xarray(data, names, units):
+def make_xarray(data, names, units, copy=True):
+    """copy=False: the Dataset holds VIEWS of the caller's array, the way a user script builds it"""
     import xarray as xr
     ds = xr.Dataset()
-    ds.coords[names[0]] = np.array(data[:, 0])
+    ds.coords[names[0]] = np.array(data[:, 0]) if copy else data[:, 0]
     ds.coords[names[0]].attrs['units'] = units[0]
     for j in range(1, len(names)):
-        ds[names[j]] = ((names[0]), np.array(data[:, j]))
+        ds[names[j]] = ((names[0]), np.array(data[:, j]) if copy else data[:, j])
         ds[names[j]].attrs['units'] = units[j]
     return ds
+
+
+def build_from_object(obj, names, units, route, workdir, err=0.01, stabilize=True):
+    """construct a profile from the caller's OWN object without copying it first: `obj` is the numpy table (columns z, T, S, P,
+    extras; route 'array', and the source the netCDF routes write their file from) or an xarray Dataset (route 'xarray')"""
+    from tamoc import ambient
+    ztsp = ['z', 'temperature', 'salinity', 'pressure']
+    chem_names, chem_units = list(names[4:]), list(units[4:])
+    if route == 'array':
+        p = ambient.Profile(obj, ztsp=list(ztsp), chem_names=chem_names, err=err, ztsp_units=list(units[:4]),
+                            chem_units=chem_units, stabilize_profile=stabilize)
+        return Built(p, route, [])
+    if route == 'xarray':
+        p = ambient.Profile(obj, ztsp=list(ztsp), chem_names=chem_names, err=err, stabilize_profile=stabilize)
+        return Built(p, route, [])
+    path = _fresh(workdir, 'same')
+    write_netcdf(path, obj, names, units)
+    if route == 'ncfile':
+        p = ambient.Profile(path, ztsp=list(ztsp), chem_names=chem_names, err=err, stabilize_profile=stabilize)
+        return Built(p, route, [path])
+    from netCDF4 import Dataset
+    nc = Dataset(path, 'a')
+    p = ambient.Profile(nc, ztsp=list(ztsp), chem_names=chem_names, err=err, stabilize_profile=stabilize)
+    return Built(p, route, [path], nc)
 
 
 def write_netcdf(path, data, names, units):
